@@ -359,6 +359,13 @@ func accessesOf(p *Prog, ms *mutationSummary, g *ssa.Global, funcs []*ssa.Functi
 						if !mut {
 							out = append(out, GlobalAccess{fn, ins, "read", "address passed to " + FuncKey(callee) + " (read-only there)", locked})
 						}
+					} else if strings.HasPrefix(name, "(*sync.Map).") {
+						m := strings.TrimPrefix(name, "(*sync.Map).")
+						if m == "Load" {
+							out = append(out, GlobalAccess{fn, ins, "sync-read", name, true})
+						} else {
+							out = append(out, GlobalAccess{fn, ins, "sync-write", name, true})
+						}
 					} else if strings.HasPrefix(name, "(*sync.") {
 						out = append(out, GlobalAccess{fn, ins, "lock-op", name, locked})
 					} else {
